@@ -134,6 +134,25 @@ def dispatch(E, c, tc, args):
                 return VBool(pos is not None)
             if meth == "get":
                 return some(VRef(r.cell, r.path + (("field", pos), ("field", 1)))) if pos is not None else NONE()
+    if re.search(r"<impl \[.*\]>::sort_by::<", c, re.S) and len(args) == 2:
+        # stable insertion sort driven by the real comparator closure (each comparison is executed; its outcome is a path decision)
+        r = ref_chain(E, args[0])
+        d = E.read_ref(r)
+        if isinstance(d, VSeq):
+            out = []
+            for x in d.items:
+                k = len(out)
+                while k > 0:
+                    o_ = E.call_value(args[1], [VRef(Cell(out[k - 1], "sort_a")), VRef(Cell(x, "sort_b"))])
+                    if isinstance(o_, VEnum) and o_.variant == "Greater":
+                        k -= 1
+                    elif isinstance(o_, VEnum):
+                        break
+                    else:
+                        raise Unsupported("comparator result %r" % (o_,))
+                out.insert(k, x)
+            d.items[:] = out
+            return UNIT
     ms = re.search(r"(?:^|::)(BTreeSet|HashSet|LinkedHashSet)::<.*>::(insert|contains|new|len|is_empty|iter)(?:::<.*>)?$", c, re.S)
     if ms:
         meth = ms.group(2)
